@@ -278,7 +278,9 @@ def run(ck, ctx):
             ok = q == "numpy.random.uniform" and len(pos) >= 2
             if ok:
                 lo_, hi_ = rf.of(pos[0]), rf.of(pos[1])
-                ok = lo_.lo == 0 and lo_.hi == 0 and 1.0 <= hi_.lo and hi_.hi <= 1.0 + 1e-6
+                # closed at 1 by at most one double-precision ulp: anything wider (e.g. float32 eps) lets u exceed 1
+                # for about 1e-7 of the events, whose energy then leaves the bounds (or is NaN for index >= 3)
+                ok = lo_.lo == 0 and lo_.hi == 0 and 1.0 <= hi_.lo and hi_.hi <= 1.0 + 4.5e-16
                 size = kws.get("size") or (pos[2] if len(pos) > 2 else None)
                 ck.ob("R12.4", "one uniform number per requested event", size is N, u, "energy_spectra",
                       g.show(size, 1) if size is not None else "no size")
